@@ -41,7 +41,11 @@ type Exec struct {
 
 // Execs lists the template executions since the last ResetExecs.
 func (it *Interp) Execs() []Exec { return it.execs }
-func (it *Interp) ResetExecs()   { it.execs, it.parsed, it.tmpls = nil, nil, nil }
+func (it *Interp) ResetExecs()   { it.execs, it.parsed, it.tmpls, it.qualified = nil, nil, nil, nil }
+
+// Qualified lists what types.TypeString returned when it was called with a qualifier (a type printed as code,
+// as opposed to the qualifier-less spelling meant for comments) since the last ResetExecs.
+func (it *Interp) Qualified() []string { return it.qualified }
 
 func defaultZero(n *types.Named) (Value, bool) {
 	if n.Obj().Pkg() == nil {
@@ -708,6 +712,11 @@ func installNatives(it *Interp) {
 		vs, handled, err := f.CallMethod("$typestring", args[1:])
 		if err != nil || !handled {
 			return nil, &EvalError{Msg: "types.TypeString of " + Show(args[0])}
+		}
+		if len(args) > 1 && args[1] != nil && len(vs) == 1 {
+			if name, ok := vs[0].(string); ok {
+				it.qualified = append(it.qualified, name)
+			}
 		}
 		// a type of another package is spelled with what the qualifier answers for that package
 		if pq, ok := f.(PackageQualified); ok && len(args) > 1 && len(vs) == 1 {
